@@ -1,0 +1,118 @@
+//go:build verif
+
+package uasc
+
+import (
+	"time"
+
+	"github.com/gopcua/opcua/uacp"
+	"github.com/gopcua/opcua/uapolicy"
+)
+
+// Verification hooks for the receive path (build tag "verif"). Add-only; not compiled in normal builds.
+
+// VerifNewChannel builds a client or server SecureChannel over conn without running any handshake.
+func VerifNewChannel(conn *uacp.Conn, cfg *Config, isServer bool, errch chan<- error) (*SecureChannel, error) {
+	k := client
+	if isServer {
+		k = server
+	}
+	return newSecureChannel("", conn, cfg, k, errch, 0, 0, 0)
+}
+
+// AddInstance appends an active token instance to the instance table under its channel id and makes it the
+// active one, the way handleOpenSecureChannelResponse / handleOpenSecureChannelRequest do.
+func (v VerifChannel) AddInstance(algo *uapolicy.EncryptionAlgorithm, chanID, tokenID, seq uint32, createdAt time.Time, lifetime time.Duration) *VerifInstance {
+	c := newChannelInstance(v.S)
+	c.algo = algo
+	c.secureChannelID = chanID
+	c.securityTokenID = tokenID
+	c.sequenceNumber = seq
+	c.createdAt = createdAt
+	c.revisedLifetime = lifetime
+	c.state = channelActive
+	v.S.instancesMu.Lock()
+	v.S.instances[chanID] = append(v.S.instances[chanID], c)
+	v.S.activeInstance = c
+	v.S.instancesMu.Unlock()
+	return &VerifInstance{C: c}
+}
+
+// SetOpening installs an opening instance (the state in which an OPN chunk is accepted).
+func (v VerifChannel) SetOpening(algo *uapolicy.EncryptionAlgorithm, chanID, tokenID, seq uint32) *VerifInstance {
+	c := newChannelInstance(v.S)
+	c.algo = algo
+	c.secureChannelID = chanID
+	c.securityTokenID = tokenID
+	c.sequenceNumber = seq
+	v.S.openingInstance = c
+	return &VerifInstance{C: c}
+}
+
+func (v VerifChannel) ClearOpening()    { v.S.openingInstance = nil }
+func (v VerifChannel) HasOpening() bool { return v.S.openingInstance != nil }
+func (v VerifChannel) Config() *Config  { return v.S.cfg }
+func (v VerifChannel) IsServer() bool   { return v.S.kind == server }
+func (v VerifChannel) InstanceTableKeys() int {
+	v.S.instancesMu.Lock()
+	defer v.S.instancesMu.Unlock()
+	return len(v.S.instances)
+}
+
+// ReadChunk runs readChunk once (one UACP frame from the connection).
+func (v VerifChannel) ReadChunk() (*MessageChunk, error) { return v.S.readChunk() }
+
+// RunExpiration runs the expiry routine of the given instance in the calling goroutine. It returns when the
+// routine has finished, i.e. after createdAt + 1.25 * lifetime (immediately if that instant has passed).
+func (v VerifChannel) RunExpiration(i *VerifInstance) { v.S.scheduleExpiration(i.C) }
+
+// RetainedChunkBytes reports the memory pinned by the chunk table: number of request ids, number of chunks,
+// sum of len(Data) and sum of cap(Data) (Data may be a window into a whole receive buffer).
+func (v VerifChannel) RetainedChunkBytes() (ids, chunks, lenSum, capSum int) {
+	v.S.chunksMu.Lock()
+	defer v.S.chunksMu.Unlock()
+	for _, l := range v.S.chunks {
+		ids++
+		for _, c := range l {
+			chunks++
+			lenSum += len(c.Data)
+			capSum += cap(c.Data)
+		}
+	}
+	return
+}
+
+// RegisterHandler registers a response slot for reqID the way sendAsyncWithTimeout does.
+func (v VerifChannel) RegisterHandler(reqID uint32) <-chan *MessageBody {
+	ch := make(chan *MessageBody, 1)
+	v.S.handlersMu.Lock()
+	v.S.handlers[reqID] = ch
+	v.S.handlersMu.Unlock()
+	return ch
+}
+
+// StartDispatcher starts the dispatcher goroutine (once) and returns the channel closed when it exits.
+func (v VerifChannel) StartDispatcher() <-chan struct{} {
+	v.S.startDispatcher.Do(func() { go v.S.dispatcher() })
+	return v.S.disconnected
+}
+
+// RcvLocked reports whether the dispatcher's receive lock is held.
+func (v VerifChannel) RcvLocked() bool {
+	v.S.rcvLocker.lockMu.Lock()
+	defer v.S.rcvLocker.lockMu.Unlock()
+	return v.S.rcvLocker.bLock
+}
+
+// RcvUnlock releases the receive lock (what open() does when it returns).
+func (v VerifChannel) RcvUnlock() { v.S.rcvLocker.unlock() }
+
+// Body returns the decoded service body of a message.
+func (b *MessageBody) VerifBody() any { return b.body }
+
+// Instance accessors.
+func (v *VerifInstance) CreatedAt() time.Time                { return v.C.createdAt }
+func (v *VerifInstance) Lifetime() time.Duration             { return v.C.revisedLifetime }
+func (v *VerifInstance) TokenID() uint32                     { return v.C.securityTokenID }
+func (v *VerifInstance) ChannelID() uint32                   { return v.C.secureChannelID }
+func (v *VerifInstance) Algo() *uapolicy.EncryptionAlgorithm { return v.C.algo }
